@@ -268,7 +268,61 @@ for name in names:
                         [sync(0, ['served', 'multislot'])], {str(pool[k]['request-id']): pool[k] for k in pool})
         except Exception as e:
             wit.append({'key': f'{name}:{libname}:synchronised', 'problems': [f'{type(e).__name__}: {e}'[:300]]})
+# ---- the stored response of the path-request script, and workbook services loaded as bidirectional
+import contextlib
+import os
+import shutil
+import tempfile
+from pathlib import Path
+from gnpy.tools import cli_examples
+from gnpy.tools.json_io import load_json, load_network, load_requests, requests_from_json
+from gnpy.tools.worker_utils import designed_network
+TMPD = Path(tempfile.mkdtemp(prefix='c19_'))
+try:
+    srv_json = load_json(EXAMPLE / 'meshTopologyExampleV2_services.json')
+    # identical requests of the file are aggregated by the planner under the joined id: every id of the file appears once, alone or joined
+    file_ids = [str(r['request-id']) for r in srv_json['path-request']]
+    for suffix in ('.json', '.csv'):
+        cases += 1
+        out = TMPD / f'response{suffix}'
+        with contextlib.redirect_stdout(io.StringIO()), contextlib.redirect_stderr(io.StringIO()):
+            cli_examples.path_requests_run([str(EXAMPLE / 'meshTopologyExampleV2.json'), str(EXAMPLE / 'meshTopologyExampleV2_services.json'),
+                                            '-e', str(EXAMPLE / 'eqpt_config.json'), '-o', str(out)])
+        if suffix == '.json':
+            ids = [str(r['response-id']) for r in load_json(out)['response']]
+        else:
+            with open(out, encoding='utf-8') as f:
+                rows = list(csv.reader(f))
+            ids = [r[0] for r in rows[1:] if r]
+        seen = [x for i in ids for x in i.split(' | ')]
+        prob = []
+        if sorted(seen) != sorted(file_ids):
+            prob.append(f'stored response{suffix} lists the request ids {sorted(seen)}, the service file holds {sorted(file_ids)}')
+        if len(set(ids)) != len(ids):
+            prob.append(f'a response id is listed more than once: {sorted(i for i in set(ids) if ids.count(i) > 1)}')
+        nontriv += 1
+        if prob:
+            wit.append({'key': f'path-request script: stored response{suffix}', 'problems': prob})
+    # a workbook with a Service sheet, loaded with the bidirectional option of the script: every request is bidirectional and the
+    # response carries both directions
+    cases += 1
+    eq = equipment()
+    xls = TMPD / 'meshTopologyExampleV2.xls'        # a copy: the loader writes the converted services next to the workbook
+    shutil.copy(EXAMPLE / 'meshTopologyExampleV2.xls', xls)
+    net = load_network(xls, eq)
+    net, _, _ = designed_network(eq, net)
+    for bidir in (True, False):
+        with contextlib.redirect_stdout(io.StringIO()), contextlib.redirect_stderr(io.StringIO()):
+            data = load_requests(xls, eq, bidir=bidir, network=net, network_filename=xls)
+        flags = [r['bidirectional'] for r in data['path-request']]
+        if not flags or any(f is not bidir for f in flags):
+            wit.append({'key': f'workbook services loaded with bidir={bidir}', 'problems': [f'bidirectional flags of the converted requests: {flags}']})
+except Exception as e:
+    wit.append({'key': 'path-request script / workbook services', 'problems': [f'{type(e).__name__}: {e}'[:300]]})
+finally:
+    shutil.rmtree(TMPD, ignore_errors=True)
 finish('response and CSV state what was computed (ids, route, transponder, labels, metrics, blocking reasons, both directions)', 'bounded',
        'gnpy.topology.request.ResultElement / jsontocsv, gnpy.tools.json_io.results_to_json, requests_aggregation',
-       f'topologies {names} (default library) + ring3 with the OpenROADM v5 library (penalties); 16 request kinds in 10 batches each',
+       f'topologies {names} (default library) + ring3 with the OpenROADM v5 library (penalties); 16 request kinds in 10 batches each; the stored '
+       'JSON / CSV response of the path-request script on the shipped mesh example; the shipped workbook services loaded uni- and bidirectional',
        cases, wit, nontrivial=nontriv, t0=t0, detail={'outcomes seen': outcomes})
